@@ -70,9 +70,32 @@ def allowed_prefixes(ops, tr):
             inflight = True
             break
         done = i + 1
-        if ops[i][0] in "scn" and o["rc"] == "0":
+        if ops[i][0] in "scnq" and o["rc"] == "0":      # q: iwkv_close returned - everything is durable
             last_sync = i + 1
     return last_sync, done + (1 if inflight else 0), done, inflight
+
+
+def gen_close_history(rng):
+    """history that ends with iwkv_close (op q) so that every effect of the closing checkpoint is a crash point.
+    Shape that makes a non-prefix mixture visible: two databases; after the last sync an operation rewrites bytes
+    that were logged before the sync (same key, same size), followed by operations on blocks no earlier record
+    touched (other database, new keys)."""
+    ops = ["n1", "n2"]
+    keys = KEYS[:6]
+    for _ in range(rng.range(3, 8)):
+        ops.append("p%d:%s:%d:%d" % (rng.choice([1, 1, 2]), W.khex(rng.choice(keys)), rng.choice([20, 100, 700]), rng.below(250)))
+    if rng.chance(1, 3):
+        ops.append("c")
+    k0 = rng.choice(keys)
+    sz = rng.choice([20, 100, 700])
+    ops += ["p1:%s:%d:%d" % (W.khex(k0), sz, rng.below(250)), "s"]
+    ops.append("p1:%s:%d:%d" % (W.khex(k0), sz, rng.below(250)))                  # rewrites pre-sync bytes
+    for _ in range(rng.range(1, 4)):
+        ops.append("p2:%s:%d:%d" % (W.khex("z%02d" % rng.below(30)), rng.choice([5, 20, 100]), rng.below(250)))   # untouched blocks
+    if rng.chance(1, 3):
+        ops.append("d1:%s" % W.khex(rng.choice(keys)))
+    ops.append("q")
+    return ops
 
 
 def gen_backup_history(rng):
@@ -114,7 +137,7 @@ def growth_class(ops, full, killat):
         a, b = o["fx0"], o["fx1"]
         ev = []
         wr = [j for j in range(a, b) if fx[j][1] == "W" and fx[j][0] == W_WRITE]
-        if ops[i][0] in "pdn":
+        if ops[i][0] in "pdnq":     # q: iwkv_close trims the file (shrink) - also a checkpoint without savepoint
             for j in range(a, b):
                 if fx[j][1] == "M" and fx[j][0] in (W_FTRUNCATE, W_FALLOCATE):
                     before = [w for w in wr if w < j]
@@ -422,6 +445,11 @@ def check(run):
             ops = gen_history(run.rng, growth)
             run.dist("history_%s" % ("growth" if growth else "no_growth"))
             do_history(run, impl, wd, "h%d" % h, crc, ops, nfirst, nlater, rk, model=model, mode=mode)
+        for h in range((10 if run.tier == "quick" else 150) * mult):
+            crc = run.rng.choice([0, 1, 2, 4, 4, 5, 6])     # bit 4: IWKV_NO_TRIM_ON_CLOSE
+            ops = gen_close_history(run.rng)
+            run.dist("history_ending_in_close_%s" % ("no_trim" if crc & 4 else "trim"))
+            do_history(run, impl, wd, "hc%d" % h, crc, ops, nfirst, nlater, 4, model=model, mode=mode, ncont=3)
         for h in range((6 if run.tier == "quick" else 80) * mult):
             crc = run.rng.choice([2, 2, 3])           # small log buffer: unsynced tails reach the log
             ops = gen_backup_history(run.rng)
